@@ -590,7 +590,13 @@ def nesting_stream(ck):
     # at the depths where the stack runs out the C encoder of cbor2 reports RecursionErrors it cannot propagate ("Exception ignored in")
     # through sys.unraisablehook: counted, not printed
     unraisable = []
-    sys.unraisablehook = lambda u: unraisable.append(type(u.exc_value).__name__)
+
+    def _hook(u):
+        try:
+            unraisable.append(1)
+        except BaseException:  # noqa: BLE001 - the hook itself runs at the bottom of the stack
+            pass
+    sys.unraisablehook = _hook
     try:
         return _nesting_stream(ck, fails)
     finally:
